@@ -12,7 +12,7 @@ MANIFEST = dict(
 
 META = dict(decided="in-bounds label/index arithmetic for 0- and 1-based labels, label range, arg-max, one-vs-rest wiring of the ROC/PR calls",
             not_decided="priors/means values, affine invariance, perfect separation, AUC = 1 (numerical)",
-            trusted_base=["oracle callees in harness/C08/lda.c"], assumptions=["discriminant scores are not NaN"])
+            trusted_base=["oracle callees in harness/C08/lda_labels.c"], assumptions=["discriminant scores are not NaN"])
 
 SRCS = ["matrix.c", "vector.c", "memwrapper.c", "numeric.c", "tensor.c", "list.c", "statistic.c", "algebra.c", "preprocessing.c", "metricspace.c", "pca.c"]
 
@@ -23,14 +23,14 @@ def jobs(tier):
         for cs in (0, 1):
             d = {"VC_NOBJ": nobj, "VC_NF": nf, "VC_NCLASS": ncl, "VC_NE": ne, "VC_CSTART": cs}
             tag = "nobj=%d,nf=%d,ncl=%d,ne=%d,start=%d" % (nobj, nf, ncl, ne, cs)
-            J.append(Job("LDAPrediction@" + tag, "C08/lda.c", entry="h_LDAPrediction", srcs=SRCS, kind="bounded", defines=d,
+            J.append(Job("LDAPrediction@" + tag, "C08/lda_labels.c", entry="h_LDAPrediction", srcs=SRCS, kind="bounded", defines=d,
                          unwind=max(nobj, nf, ncl, ne) + 3, functions=["LDAPrediction"],
                          bound="concrete shape %s; all scores arbitrary (oracle)" % tag,
                          clause="prediction: in-bounds, label in training range, arg-max of stored scores (labels from %d)" % cs))
     for (nobj, ncl) in ([(3, 3), (2, 2), (4, 3)] if tier == "quick" else [(3, 3), (2, 2), (4, 3), (4, 4), (5, 3)]):
         d = {"VC_NOBJ": nobj, "VC_NCLASS": ncl}
         tag = "nobj=%d,ncl=%d" % (nobj, ncl)
-        J.append(Job("LDAMulticlassStatistics@" + tag, "C08/lda.c", entry="h_LDAMulticlassStatistics", srcs=SRCS, kind="bounded", defines=d,
+        J.append(Job("LDAMulticlassStatistics@" + tag, "C08/lda_labels.c", entry="h_LDAMulticlassStatistics", srcs=SRCS, kind="bounded", defines=d,
                      unwind=max(nobj, ncl) + 3, functions=["LDAMulticlassStatistics", "getNClasses"],
                      bound="concrete sizes %s; labels symbolic in [0,ncl)" % tag,
                      clause="per-class ROC/PR receive one-vs-rest indicators of true and predicted labels; one AUC per class"))
